@@ -124,3 +124,66 @@ func ZZ_C11_failed_commit_reopen() {
 		vpAssert(gerr == ErrNotFound, "discarded-write-invisible-after-reopen")
 	}
 }
+
+// C07/C11: an iterator obtained from a transaction is still usable after
+// Discard (documented); the discarded table's removal is deferred until the
+// iterator is released. Meanwhile its file number is not handed out again (a
+// new table would overwrite the file under the old reader), the file is
+// removed exactly when the iterator lets go, and a table committed meanwhile
+// is untouched.
+func ZZ_C07_deferred_removal() {
+	mem := storage.NewMemStorage()
+	s := zzSession(mem, 64<<20)
+	s.setOptions(&opt.Options{Compression: opt.NoCompression, WriteBuffer: 64, BlockCacheEvictRemoved: vpChoose(2) == 1, DisableSeeksCompaction: true})
+	s.tops = newTableOps(s)
+	vpAssert(s.create() == nil, "setup-create")
+	db := &DB{
+		s:           s,
+		seq:         10,
+		snapsList:   list.New(),
+		memPool:     make(chan *memdb.DB, 1),
+		writeLockC:  make(chan struct{}, 1),
+		closeC:      make(chan struct{}),
+		compPerErrC: make(chan error),
+		compErrC:    make(chan error),
+	}
+	db.mem = &memDB{db: db, DB: memdb.New(s.icmp, 64), ref: 1}
+	k1, v1 := []byte{vpNondetU8()}, []byte{vpNondetU8()}
+	k2, v2 := []byte{vpNondetU8()}, []byte{vpNondetU8()}
+	tr, err := db.OpenTransaction()
+	vpAssert(err == nil, "open-ok")
+	vpAssert(tr.Put(k1, v1, nil) == nil, "tr-put-ok")
+	vpAssert(tr.flush() == nil && len(tr.tables) == 1, "tr-flushed-a-table")
+	old := tr.tables[0].fd
+	it := tr.NewIterator(nil, nil)
+	vpAssert(it.First() && it.Key()[0] == k1[0] && it.Value()[0] == v1[0], "tr-iterator-reads-own-write")
+	tr.Discard()
+	exists := func(fd storage.FileDesc) bool {
+		fds, _ := mem.List(storage.TypeTable)
+		for _, f := range fds {
+			if f == fd {
+				return true
+			}
+		}
+		return false
+	}
+	vpAssert(exists(old), "table-stays-while-an-iterator-uses-it")
+	tr2, err := db.OpenTransaction()
+	vpAssert(err == nil, "open2-ok")
+	vpAssert(tr2.Put(k2, v2, nil) == nil, "tr2-put-ok")
+	vpAssert(tr2.Commit() == nil, "tr2-commit-ok")
+	var live storage.FileDesc
+	for _, tt := range db.s.stVersion.levels {
+		for _, t := range tt {
+			live = t.fd
+		}
+	}
+	vpAssert(live != old, "file-number-not-reused-while-removal-is-pending")
+	// the old iterator still reads its own (discarded) data
+	vpAssert(it.First() && it.Key()[0] == k1[0] && it.Value()[0] == v1[0], "old-iterator-still-reads-its-table")
+	it.Release()
+	vpAssert(!exists(old) || old == live, "discarded-table-removed-when-the-iterator-lets-go")
+	vpAssert(exists(live), "committed-table-untouched")
+	got2, gerr2 := db.Get(k2, nil)
+	vpAssert(gerr2 == nil && len(got2) == 1 && got2[0] == v2[0], "committed-write-readable")
+}
